@@ -503,7 +503,8 @@ class EquityMonitor:
         elif last < 0:
             cagr = float('nan')
         else:
-            cagr = last ** (1 / years) - 1
+            with np.errstate(all='ignore'):
+                cagr = float(np.float64(last) ** np.float64(1 / years) - 1)
         ref['annual_return'] = cagr * 100
         if len(r) >= 2:
             sd = float(np.std(r, ddof=1))
